@@ -41,16 +41,16 @@ type wOp struct {
 }
 
 type wInput struct {
-	WC       int    `json:"wc"`
-	Ops      []wOp  `json:"ops"`
-	Procs    int    `json:"gomaxprocs"`
-	DelaySeed uint64 `json:"delay_seed"`
-	MaxDelayUs int  `json:"max_delay_us"` // per underlying Write call: random delay in [0, max]
-	APIDelayUs int  `json:"api_delay_us"` // random delay before each API call
-	FaultAt  int    `json:"fault_at"`     // index of the first failing underlying Write (-1: none); all later calls fail too
-	Partial  bool   `json:"partial"`      // the failing call accepts part of the data before reporting the error
-	Bam      bool   `json:"bam"`
-	DataSeed uint64 `json:"data_seed"`
+	WC         int    `json:"wc"`
+	Ops        []wOp  `json:"ops"`
+	Procs      int    `json:"gomaxprocs"`
+	DelaySeed  uint64 `json:"delay_seed"`
+	MaxDelayUs int    `json:"max_delay_us"` // per underlying Write call: random delay in [0, max]
+	APIDelayUs int    `json:"api_delay_us"` // random delay before each API call
+	FaultAt    int    `json:"fault_at"`     // index of the first failing underlying Write (-1: none); all later calls fail too
+	Partial    bool   `json:"partial"`      // the failing call accepts part of the data before reporting the error
+	Bam        bool   `json:"bam"`
+	DataSeed   uint64 `json:"data_seed"`
 }
 
 func (in wInput) shape() string {
@@ -414,10 +414,10 @@ type wRun struct {
 	// durability points: decoded bytes that must be delivered, checked when the op returned
 	fails []wFail
 	// bam only
-	headerLen int
+	headerLen    int
 	newWriterErr string
-	beforeLib int
-	afterLib  []string
+	beforeLib    int
+	afterLib     []string
 }
 
 type wFail struct{ sig, what string }
@@ -498,7 +498,7 @@ func wRunScript(in wInput) *wRun {
 	busy := func() bool { return atomic.LoadInt32(&r.rw.inCall) > 0 }
 	sim := &wSim{}
 	pos := 0
-	written := 0 // bytes of Write calls that returned
+	written := 0     // bytes of Write calls that returned
 	flushedNil := -1 // bytes written before the last Flush that returned nil, if the previous op was that Flush
 	closedOK := false
 	for i, op := range in.Ops {
